@@ -44,6 +44,15 @@ func immOrigins() []struct {
 		{"export-map", func() ([]*Node, []Module) {
 			return []*Node{Def("v", Import("m"))}, []Module{{Name: "m", Prog: &Program{Stmts: []*Node{Export(mp())}}}}
 		}},
+		{"freeze-immutable-shared-twice", func() ([]*Node, []Module) {
+			// an already-immutable container holding a mutable child, reachable twice from the argument
+			return []*Node{Def("s", Imm(Arr(Arr(Int(1), Int(2))))), Def("src", Arr(Id("s"), Id("s"), Map([]string{"k"}, []*Node{Id("s")}))),
+				Def("v", Call(Id("freeze"), Id("src")))}, nil
+		}},
+		{"freeze-immutable-map-shared-twice", func() ([]*Node, []Module) {
+			return []*Node{Def("s", Imm(Map([]string{"k"}, []*Node{Arr(Int(1), Int(2))}))), Def("src", Arr(Map([]string{"a"}, []*Node{Id("s")}), Id("s"))),
+				Def("v", Call(Id("freeze"), Id("src")))}, nil
+		}},
 		{"aliased-before", func() ([]*Node, []Module) { return []*Node{Def("src", arr()), Def("v", Imm(Id("src")))}, nil }},
 		{"immutable-of-slice", func() ([]*Node, []Module) {
 			return []*Node{Def("src", Arr(Int(1), Int(2), Int(3), Int(4))), Def("v", Imm(Slice(Id("src"), Int(1), Int(3))))}, nil
@@ -95,7 +104,17 @@ func (g *immGen) op(src string) []*Node {
 
 func (g *immGen) write(dst string) *Node {
 	var sels []*Node
-	switch g.r.Intn(9) {
+	switch g.r.Intn(14) {
+	case 9:
+		sels = []*Node{Int(1), Int(0), Int(0)}
+	case 10:
+		sels = []*Node{Int(0), Int(0), Int(1)}
+	case 11:
+		sels = []*Node{Int(1), DotKey("k"), Int(0)}
+	case 12:
+		sels = []*Node{Int(2), DotKey("k"), Int(0)}
+	case 13:
+		sels = []*Node{Int(0), DotKey("a"), DotKey("k")}
 	case 0:
 		sels = []*Node{Int(0)}
 	case 1:
